@@ -16,6 +16,7 @@ import (
 	"io"
 	"net"
 	"os"
+	"runtime"
 	"strconv"
 	"strings"
 	"sync"
@@ -619,6 +620,24 @@ func c09OpApplicable(k c09OpCase) bool {
 	return true
 }
 
+// c09Parked: some goroutine is blocked inside the given library frame (for the total limit: a semaphore
+// Acquire called from the limiter's Do/DoObserve, not the NSTART semaphore).
+func c09Parked(stacks, frame string, pt int) bool {
+	for _, g := range strings.Split(stacks, "\n\n") {
+		if !strings.Contains(g, frame) {
+			continue
+		}
+		if pt == 5 && !strings.Contains(g, "limitParallelRequests") {
+			continue
+		}
+		if pt == 5 && strings.Contains(g, "acquireOutstandingInteraction") {
+			continue
+		}
+		return true
+	}
+	return false
+}
+
 // runs one scenario; returns (returned within the watchdog, error class)
 func runC09Op(k c09OpCase, seed uint64) (bool, int, error) {
 	rng := NewRng(seed)
@@ -629,7 +648,9 @@ func runC09Op(k c09OpCase, seed uint64) (bool, int, error) {
 	case 5:
 		cfg.limitEndpoint, cfg.limitTotal = 8, 1
 	case 6:
+		// NSTART is the only thing in the way: the parallel-request limits must not be (their default is 1)
 		cfg.nstart = 1
+		cfg.limitEndpoint, cfg.limitTotal = 8, 8
 	case 3:
 		cfg.blockwise = true
 	}
@@ -769,6 +790,24 @@ func runC09Op(k c09OpCase, seed uint64) (bool, int, error) {
 			}
 			nsent++
 			answered = nsent - 1
+		}
+	}
+	if reached && k.pt >= 4 && k.trig != 4 {
+		// the operation must really be parked behind the limit before the trigger fires: look for its frame
+		frame := map[int]string{4: ").acquireEndpoint(", 5: "semaphore.(*Weighted).Acquire(", 6: ").acquireOutstandingInteraction("}[k.pt]
+		deadline := time.Now().Add(setup)
+		reached = false
+		buf := make([]byte, 1<<20)
+		for time.Now().Before(deadline) {
+			n := runtime.Stack(buf, true)
+			if c09Parked(string(buf[:n]), frame, k.pt) {
+				reached = true
+				break
+			}
+			if ret, _, _ := early(); ret {
+				break
+			}
+			time.Sleep(200 * time.Microsecond)
 		}
 	}
 	if !reached {
